@@ -12,7 +12,7 @@ Local Arguments beqb : simpl never.
 
 (* ---- reflexivity of the equality tests ---------------------------------- *)
 Lemma opar_eqb_refl p : opar_eqb p p = true.
-Proof. unfold opar_eqb. now rewrite !beqb_refl, Bool.eqb_reflx. Qed.
+Proof. unfold opar_eqb. now rewrite !beqb_refl, !Bool.eqb_reflx. Qed.
 Lemma opt_opar_refl p : opt_eqb opar_eqb p p = true.
 Proof. destruct p; cbn; [apply opar_eqb_refl | reflexivity]. Qed.
 
@@ -66,9 +66,18 @@ Proof.
   rewrite Zt, Zs. reflexivity.
 Qed.
 
+(* the model's parent computation is the parent the property demands *)
+Lemma want_parent_eq g i :
+  option_map opar_of (match extract_fn (g_propagate g) (n_tp i) (n_ts i) with Some p => Some p | None => n_amb i end)
+  = want_parent g i.
+Proof.
+  unfold want_parent, extract_fn. destruct (g_propagate g); [|reflexivity].
+  destruct (parse_tp (n_tp i)); reflexivity.
+Qed.
+
 (* ---- the hook, one call at a time ------------------------------------------ *)
 Section HookFacts.
-  Variable sampler : option pctx -> bool.
+  Variable sampler : option sctx -> bool.
   Variable g : cfg.
   Let extract := extract_fn (g_propagate g).
 
@@ -91,7 +100,7 @@ Section HookFacts.
     tok_for i (snd (fst (hook_start extract sampler g s i))).
   Proof.
     unfold hook_start, tok_for. destruct (g_tracing g) eqn:T; cbn; intros sid p H; [|discriminate].
-    inversion H; subst. split; reflexivity.
+    inversion H; subst. split; [reflexivity | apply want_parent_eq].
   Qed.
 
   Lemma seg_start s i :
@@ -99,7 +108,7 @@ Section HookFacts.
   Proof.
     unfold hook_start, seg_ok, starts_ok, ends_ok, counts_ok.
     destruct (g_tracing g) eqn:T; cbn [negb snd fst filter is_start is_end is_metric length Nat.eqb Nat.add].
-    - rewrite beqb_refl. unfold want_parent, extract. rewrite opt_opar_refl.
+    - rewrite beqb_refl. unfold extract. rewrite want_parent_eq, opt_opar_refl.
       destruct (g_metrics g); reflexivity.
     - destruct (g_metrics g); reflexivity.
   Qed.
@@ -158,7 +167,7 @@ Section HookFacts.
       apply andb_true_iff in He' as [He' L]. apply andb_true_iff in He' as [He' C]. apply andb_true_iff in He' as [S0 En].
       rewrite En, C. unfold starts_ok in S0. rewrite T in S0.
       destruct (filter is_start e2) eqn:F; [|destruct l; destruct b; discriminate].
-      unfold starts_ok. rewrite T, beqb_refl. unfold want_parent, extract. rewrite opt_opar_refl.
+      unfold starts_ok. rewrite T, beqb_refl. unfold extract. rewrite want_parent_eq, opt_opar_refl.
       cbn [andb length Nat.add]. cbn [length Nat.add] in L. exact L.
     - cbn [app]. apply He. now right.
   Qed.
@@ -187,7 +196,7 @@ Proof. unfold seg_ok, starts_ok, ends_ok, counts_ok. cbn. destruct (g_tracing g)
 Ltac triv := cbn [segs_ok fst snd]; rewrite ?seg_nil; repeat split; auto.
 
 Section Sched.
-  Variable sampler : option pctx -> bool.
+  Variable sampler : option sctx -> bool.
   Variable g : cfg.
   Variable calls : list call.
   Let extract := extract_fn (g_propagate g).
@@ -295,8 +304,8 @@ Record GI (s : sdk) (tr : list bev) : Prop := {
   gi_cover : forall x, In x (started_rec tr) -> In x (ended_of tr) \/ In x (s_live s) }.
 
 Section Life.
-  Variable extract : bytes -> option pctx.
-  Variable sampler : option pctx -> bool.
+  Variable extract : bytes -> bytes -> option sctx.
+  Variable sampler : option sctx -> bool.
   Variable g : cfg.
 
   Lemma metrics_none i err : ended_of (end_metrics g i err) = [] /\ started_rec (end_metrics g i err) = [].
@@ -307,7 +316,7 @@ Section Life.
   Proof.
     intros [N S L B C]. unfold hook_start. destruct (g_tracing g); cbn [negb fst snd].
     2:{ rewrite app_nil_r. now constructor. }
-    destruct (sampler (extract (n_tp i))); constructor; cbn [s_live s_next];
+    destruct (sampler _); constructor; cbn [s_live s_next];
       rewrite ?ended_of_app, ?started_rec_app; cbn [ended_of started_rec]; rewrite ?app_nil_r; auto.
     - intros x H. apply in_or_app. left. auto.
     - intros x [<- | H].
@@ -324,7 +333,7 @@ Section Life.
     In x (s_live s) \/ exists p, tk_span (snd (fst (hook_start extract sampler g s i))) = Some (x, p).
   Proof.
     unfold hook_start. destruct (g_tracing g); cbn [negb fst snd s_live tk_span]; [|now left].
-    destruct (sampler (extract (n_tp i))); [|now left]. cbn [In].
+    destruct (sampler _); [|now left]. cbn [In].
     intros [<- | H]; [right; eauto | now left].
   Qed.
 
@@ -367,8 +376,8 @@ Section Life.
 End Life.
 
 Section LifeSched.
-  Variable extract : bytes -> option pctx.
-  Variable sampler : option pctx -> bool.
+  Variable extract : bytes -> bytes -> option sctx.
+  Variable sampler : option sctx -> bool.
   Variable g : cfg.
   Variable calls : list call.
 
@@ -573,24 +582,30 @@ Proof.
   destruct (tk_span t) as [[sid p]|]; [rewrite (L sid p eq_refl)|]; cbn [snd app]; exact M.
 Qed.
 
+(* a valid caller traceparent wins over WHATEVER span is current in the dispatch context *)
 Lemma start_parent_w3c sampler g s i tr sp fl :
   g_tracing g = true -> g_propagate g = true -> n_tp i = tp00 tr sp fl ->
   part_ok 32 tr = true -> part_ok 16 sp = true -> part_ok 2 fl = true ->
   (flags_val fl <=? 3) = true -> all_zero tr = false -> all_zero sp = false ->
   snd (hook_start (extract_fn (g_propagate g)) sampler g s i) =
-  [BStart (s_next s) (sampler (Some {| p_trace := tr; p_span := sp; p_sampled := N.odd (flags_val fl) |}))
-          (span_name i) true (Some {| op_trace := tr; op_span := sp; op_same := true |})].
+  [BStart (s_next s)
+          (sampler (Some {| x_trace := tr; x_span := sp; x_sampled := N.odd (flags_val fl);
+                            x_remote := true; x_tstate := n_ts i |}))
+          (span_name i) true
+          (Some {| op_trace := tr; op_span := sp; op_same := true; op_remote := true; op_tstate := n_ts i |})].
 Proof.
   intros T P E H1 H2 H3 H4 H5 H6. unfold hook_start, extract_fn. rewrite T, P, E. cbn [negb snd].
   now rewrite (parse_tp00 tr sp fl H1 H2 H3 H4 H5 H6).
 Qed.
 
-Lemma start_root sampler g s i :
-  g_tracing g = true -> extract_fn (g_propagate g) (n_tp i) = None ->
-  snd (hook_start (extract_fn (g_propagate g)) sampler g s i) = [BStart (s_next s) (sampler None) (span_name i) true None].
+(* no (valid) traceparent: the span stays under the ambient span context, a root span when there is none *)
+Lemma start_ambient sampler g s i :
+  g_tracing g = true -> extract_fn (g_propagate g) (n_tp i) (n_ts i) = None ->
+  snd (hook_start (extract_fn (g_propagate g)) sampler g s i) =
+  [BStart (s_next s) (sampler (n_amb i)) (span_name i) true (option_map opar_of (n_amb i))].
 Proof. intros T E. unfold hook_start. rewrite T, E. reflexivity. Qed.
 
-Lemma absent_tp_is_root b : extract_fn b [] = None.
+Lemma absent_tp_is_none b ts : extract_fn b [] ts = None.
 Proof. destruct b; reflexivity. Qed.
 
 Lemma tracing_off_silent extract sampler g s i t err :
